@@ -19,10 +19,15 @@ CHECKS = {
               "correspondence; round trip through dict, JSON text, list, YAML, TOML and JSON-file mixins"),
         technique='Lean 4 proof over a hand model + differential correspondence + round-trip oracle', ref='4 C01'),
     'C02': dict(
-        text=("Lean theorems over a semantic model of the v1 loader: leaf inverses incl. bytes/bytearray (base64), consistency of every "
-              "(v1_key_case, dump transform) pair, AUTO tries the own name first, witness of the recorded Union finding; model tied to the "
-              "code by round-trip + load correspondence over the v1 grammar incl. reversed-Union fields; generator failures are detected "
-              "by the correspondence (loader generation is part of every case), not proved absent"),
+        text=("Lean theorems over a semantic model of the v1 loader: the structural round trip fromdict(cls, json(asdict(x))) = x for "
+              "every instance of every model over int / float / str / bool / Decimal / Path / UUID / date / time / datetime (named "
+              "StdLaws) / Optional / list / dict[str, .] / plain dataclasses nested to any depth below a main class with v1 = True, "
+              "v1_key_case = CAMEL (induction over the conformance derivation: shape of the dumped dict, the generated field loop finds "
+              "every field, finish step); leaf inverses incl. bytes / bytearray (base64), consistency of every (v1_key_case, dump "
+              "transform) pair, AUTO tries the own name first, witness of the recorded Union finding. Outside the fragment the round "
+              "trip is carried by the oracle: model tied to the code by round-trip + load correspondence over the v1 grammar incl. "
+              "reversed-Union fields; generator failures are detected by the correspondence (loader generation is part of every case), "
+              "not proved absent"),
         technique='Lean 4 proof over a hand (semantic) model + differential correspondence + round-trip oracle', ref='4 C02'),
     'C03': dict(
         text=("Lean theorems: the isinstance scan over the registration table (regenerated from source) reaches the documented "
